@@ -137,7 +137,7 @@ class Driver:
         shape = (kind, desc.split('got ')[-1].split('(')[0][:30])
         self.failed[shape] = self.failed.get(shape, 0) + 1
         if self.failed[shape] <= 3:
-            self.v.violation(f'{kind}: {desc}', dict(case, kind=kind))
+            self.v.violation(f'{kind}: {desc}', dict(case, kind=kind, nth=self.failed[shape]))
 
     def seen(self, kind, key):
         self.counts[kind] = self.counts.get(kind, 0) + 1
@@ -760,6 +760,8 @@ def run(tier, seed):
         not_judged=not_judged(drv),
         rule='one case = (kind of check, input); the oracle is the value of the '
              'Address.tla definitions exported by TLC; a raise counts as a wrong answer')
+    # the first of every kind of discrepancy first (finish() prints twenty)
+    v.violations.sort(key=lambda x: x['case'].get('nth', 0))
     v.traces = len(vectors) + (len(vec4) if vec4 else 0) + n4
     v.assumptions = [
         'TLC evaluates the Address.tla definitions correctly',
